@@ -91,6 +91,13 @@ def check(run: Run) -> None:
     run.rule("C15.R3", "nesting: _get_saved_where_filter re-expands the names found in the clause it read, through itself")
     run.rule("C15.R5", "every brace pair is a reference: the name pattern is '{' (any character but a brace)* '}', so no spelling of {name} slips through unexpanded and unreported")
     reference_pattern(run, model)
+    run.rule("C15.R6", "the expanded text means what its parentheses say: the query compiler builds the filter tree of the derivation, also when a conjunction holds nothing but groups "
+             "(`{a} {b}` with alternatives in both) -- C04.R5, adopted")
+    from . import c04
+
+    sub4 = Run("C04", run.tier, run.repo)
+    c04.check(sub4)
+    run.floor("adopted nesting obligations", run.adopt(sub4, ("C04.R5",), "C15.R6"), 1)
     run.rule("C15.R4", "freshness: the clause is read from the .zoq file on every call; no module-level cache")
     # both functions with their private helpers folded back in (extracting `_read_saved_qstring`, `_splice_where_filters`, ... changes nothing)
     from ..flatten import flat_info
@@ -397,6 +404,8 @@ def expansion_scenarios(run: Run, model: PyModel) -> None:
     pages = {"plain": "# W +p O alpha", "alt": "# W a | b\n\n- some old result", "outer": "# W x {alt}", "grp": "# W (o +aa) | (- +bb) G file", "dangling": "# W y {nope}",
              "leaf": "# W +leaf", "left": "# W l {leaf}", "right": "# W r {leaf}", "dia": "# W {left} {right}",
              # a diamond whose shared corner has alternatives: EVERY use of it must arrive grouped
+             # names with a dot / a dash / a sub-directory, next to a page named by the part in front of the dot
+             "job": "# W +w", "job.urgent": "# W +wu", "at-home": "# W @h", "ctx/desk": "# W @d",
              "altleaf": "# W %ann | %bob", "home": "# W @home {altleaf}", "work": "# W @work {altleaf}", "both": "# W {home} {work}"}
     W = World(model, files={}, old_map=None, indexed=set(), errors=set(), whitelist=[""], contents={f"/Z/zoq/{k}.zoq": v for k, v in pages.items()}, missing="all-but-contents")
     from ..absint import Interp, State
@@ -409,6 +418,7 @@ def expansion_scenarios(run: Run, model: PyModel) -> None:
              # a saved query reached along two paths of an ACYCLIC reference graph (diamond), and the same reference twice in one query
              ("W z {dia}", [("dia", "l +leaf r +leaf")]), ("W {left} {right}", [("left", "l +leaf"), ("right", "r +leaf")]), ("W {plain} z {plain}", [("plain", clause["plain"])]),
              ("W {home} {work}", [("home", "@home (%ann | %bob)"), ("work", "@work (%ann | %bob)")]), ("W z {both}", [("both", "@home (%ann | %bob) @work (%ann | %bob)")]),
+             ("W z {job.urgent}", [("job.urgent", "+wu")]), ("W z {job.later}", None), ("W z {at-home} {ctx/desk}", [("at-home", "@h"), ("ctx/desk", "@d")]), ("W z {job}", [("job", "+w")]),
              ("W {altleaf} z {altleaf}", [("altleaf", "%ann | %bob")]), ("W {home} {altleaf}", [("home", "@home (%ann | %bob)"), ("altleaf", "%ann | %bob")])]
     n = 0
     for q, refs in cases:
